@@ -448,7 +448,7 @@ class C13(Suite):
         for k in (0, 27, 28, 29, 78, 100, 128, 178):
             yield dict(base, api="sync", depth=0, k=k, mode="quiet")
         # 2. seeded random exchanges, cut at boundary-biased offsets
-        nex = 150 if quick else 1800
+        nex = 150 if quick else 1500
         for _ in range(nex):
             n = rng.choice([1, 2, 3, 3, 4, 6, 8, 10])
             kinds = [rng.choice(self.KIND_POOL) for _ in range(n)]
@@ -463,7 +463,7 @@ class C13(Suite):
             for k in self.interesting_offsets(rng, reg, frames, 10 if quick else 14):
                 yield dict(case, k=k, mode="quiet" if rng.random() < 0.2 else "eof")
         # 3. mutated streams (whole, and cut)
-        nmut = 400 if quick else 6000
+        nmut = 400 if quick else 5000
         for _ in range(nmut):
             n = rng.choice([2, 3, 4, 6])
             kinds = [rng.choice(self.KIND_POOL) for _ in range(n)]
@@ -601,7 +601,8 @@ class C13(Suite):
             issued = self.issued_for(c["ops"], c["fragment"], c["multiple"])
             api, depth = self.api_depth(c)
             evs = [b for b in obs["s2c"] if b] + [obs["term"]]
-            spec = f" {sum(len(b) for b in obs['s2c']) // 2}:{obs['server']}" if self.spec_applies(c) else ""
+            whole = "".join(obs["s2c"]) if c["dir"] == "drop" else obs["server"]     # the stream as (to be) delivered
+            spec = f" {sum(len(b) for b in obs['s2c']) // 2}:{whole}" if self.spec_applies(c) else ""
             return f"crx {api} {depth} 0 {self.issued_token(issued)} {','.join(evs)}{spec}"
         # proxy / poll
         uses = "|".join(self.issued_token(self.issued_for(ops, False, c["multiple"])) for ops in obs["uses"])
@@ -621,13 +622,17 @@ class C13(Suite):
         out = getattr(self, "impl_" + c["kind"])(c)
         return out + "#spec-ok" if self.spec_applies(c) else out
 
+    # mutations that leave every frame well-formed with at least one reply (the hypotheses of exchange_zip_segmented)
+    SERVED_MUTATIONS = ("none", "swap", "dup", "drop", "ctx", "svc", "extra", "count")
+
     @staticmethod
     def spec_applies(c):
-        """unmutated exchanges: the hypotheses of `exchange_cut_segmented` must hold on the real streams (the driver
-        decides them and compares the theorem's right-hand side with the model run)"""
+        """exchanges whose frames all parse: the hypotheses of `exchange_zip_segmented` (and, unmutated, of
+        `exchange_cut_segmented`) must hold on the real streams; the driver decides them and compares the theorems'
+        right-hand sides with the model run"""
         if c["kind"] == "relay":       # ... as far as the server answered at all (a request stream cut inside Register)
-            return c["dir"] != "drop" and bool(c.get("_obs")) and len(c["_obs"]["server"]) >= 2 * 28
-        return c["kind"] == "script" and c["mut"] == "none"
+            return bool(c.get("_obs")) and len(c["_obs"]["server"]) >= 2 * 28
+        return c["kind"] == "script" and c["mut"] in C13.SERVED_MUTATIONS
 
     def impl_script(self, c):
         pre = getattr(self, "precomputed", None)
